@@ -70,7 +70,8 @@ def plan(tier):
                 'operation / attribute / (payload, tag), version, outcome)',
         'min_monitor': {'version_echo_checked': 20, 'operation_cells': 300, 'response_tag_sets_checked': 300,
                         'newer_field_requests': 30, 'attribute_lists_checked': 40,
-                        'request_level_rejections_checked': 30, 'unsupported_version_repeated': 20},
+                        'request_level_rejections_checked': 30, 'unsupported_version_repeated': 20,
+                        'concurrent_answers_checked': 300},
         'assumptions': ['tag introduction version is read off the numeric tag ranges of the cumulative KMIP tag tables',
                         'Operation Policy Name counts as removed in KMIP 2.0 (deprecated in 1.3 but still defined through 1.4)',
                         '"refused" = no successful batch item; "available" = reason other than Operation Not Supported'],
@@ -84,6 +85,7 @@ def cases(tier, seed):
         cs.append({'part': 'operations', 'ops': [o.name for o in ops[i:i + 6]]})
     n = 48 if tier == 'quick' else 240
     cs += [{'part': 'traffic', 'i': i} for i in range(n)]
+    cs += [{'part': 'concurrent', 'i': i} for i in range(16 if tier == 'quick' else 160)]
     return cs
 
 
@@ -325,6 +327,75 @@ def run_case(ctx, case):
                                 ctx.violation('attribute-accepted|Sensitive|%s' % O(r.item()['operation']).name,
                                               'a KMIP %d.%d request using the Sensitive attribute (KMIP 1.4) succeeded: %s'
                                               % (v + (T.to_jsonable(T.strip(r.tree, {T.T_TIME_STAMP}))[1][1],)), None)
+            elif part == 'concurrent':
+                # the version rules while clients of other versions are being served: every client on its own thread, thread
+                # yields injected at executed lines of the package; each answer is judged by the version of its own request
+                import random as _random
+                import threading
+                from kv.monitors.yields import YieldInjector
+                versions = rng.sample(SUPPORTED, rng.choice((2, 3, 3)))
+                if (1, 0) not in versions and rng.random() < 0.6:
+                    versions[0] = (1, 0)
+                scripts = []
+                for v in versions:
+                    reqs = []
+                    for _ in range(rng.randrange(8, 16)):
+                        op = rng.choice((op_query((E.QueryFunction.QUERY_OPERATIONS, E.QueryFunction.QUERY_OBJECTS)), op_discover_versions(),
+                                         op_get_attribute_list(rng.choice(objs).uid), op_get_attributes(rng.choice(objs).uid), op_locate(),
+                                         op_query((E.QueryFunction.QUERY_OPERATIONS,)), op_get_attributes(rng.choice(objs).uid, ['Operation Policy Name', 'Sensitive'])))
+                        try:
+                            reqs.append((op[0], rig.encode_request(rig.build_request(v, [op]), v)))
+                        except Exception:
+                            pass
+                    scripts.append(reqs)
+                results = [[] for _ in versions]
+
+                def client(ci):
+                    for opn, q in scripts[ci]:
+                        try:
+                            results[ci].append(srv.send_bytes(q, ident, strict_decode=False))
+                        except BaseException as e:      # noqa
+                            results[ci].append(None)
+                threads = [threading.Thread(target=client, args=(ci,)) for ci in range(len(versions))]
+                with YieldInjector(_random.Random(rng.getrandbits(32)), rng.choice((0.05, 0.15, 0.3)), tool=5, name='kv-c16') as yi:
+                    for t in threads:
+                        t.start()
+                    for t in threads:
+                        t.join(90)
+                if any(t.is_alive() for t in threads):
+                    ctx.unsure('a client thread of a concurrent C16 history did not finish within 90 s')
+                    return
+                ctx.count('concurrent_histories')
+                ctx.count('concurrent_yields_injected', yi.yields)
+                ctx.cell('concurrent', '+'.join('%d.%d' % v for v in sorted(versions)))
+                for ci, v in enumerate(versions):
+                    for (opn, q), r in zip(scripts[ci], results[ci]):
+                        ctx.ev()
+                        ctx.count('concurrent_answers_checked')
+                        if r is None or r.error is not None or r.data is None:
+                            continue
+                        what = 'concurrent:%s' % opn.name
+                        if r.header_version != v:
+                            ctx.violation('echo|%d.%d|concurrent' % v, 'a request under KMIP %d.%d is answered with header version %s while clients '
+                                          'of other versions are served' % (v + (r.header_version,)), None)
+                        check_tags(ctx, r, v, what)
+                        if OP_INTRO[opn] > v and r.ok():
+                            ctx.violation('operation-too-new|%s|%d.%d|concurrent' % ((opn.name,) + v), '%s (KMIP %d.%d) succeeded under KMIP %d.%d while '
+                                          'clients of other versions are served' % ((opn.name,) + OP_INTRO[opn] + v), None)
+                        if opn == O.QUERY and r.ok():
+                            for k in T.kids(r.payload(), T.T_OPERATION):
+                                if OP_INTRO[O(k[2])] > v:
+                                    ctx.violation('query|advertises-too-new|%s|%d.%d|concurrent' % ((O(k[2]).name,) + v),
+                                                  'Query under KMIP %d.%d advertises %s (KMIP %d.%d) while clients of other versions are served'
+                                                  % (v + (O(k[2]).name,) + OP_INTRO[O(k[2])]), None)
+                                    break
+                        if opn in (O.GET_ATTRIBUTE_LIST, O.GET_ATTRIBUTES) and r.ok():
+                            names_ = [it[2] for _, it in T.walk(r.payload()) if it[0] == 0x42000A and it[1] == T.TEXT]
+                            for nm in names_:
+                                lo, hi = ATTR_ADDED.get(nm, (1, 0)), ATTR_REMOVED.get(nm)
+                                if v < lo or (hi is not None and v >= hi):
+                                    ctx.violation('attribute-reported|%s|%d.%d|concurrent' % ((nm,) + v), 'attribute %s is reported under KMIP %d.%d while '
+                                                  'clients of other versions are served' % ((nm,) + v), None)
             elif part == 'discover-query':
                 # what Query advertises must not depend on which versions were served before
                 seen = {}
